@@ -13,6 +13,10 @@ from sa.values import NONE, Const, EnumVal, Obj, SeqVal, Sym, TypeRef, UserFn
 PID = "C16"
 
 
+def short_cls(fq: str) -> str:
+    return fq.rsplit(".", 1)[-1].rstrip("*")
+
+
 def batch_result_readers(prog) -> set[str]:
     """Classes whose __call__ reads BatchResult-only attributes of its argument (summary generators for batch results)."""
     br = prog.cls("concurrency.models", "BatchResult")
@@ -290,6 +294,37 @@ def build() -> Check:
                                  "limit, so a large non-ASCII result is returned inline above the limit instead of being recorded", t))
     ck.floor("measured_dumps", n_meas, 1)
     ck.ob("R5.size-measured-in-bytes", fn_construct(wrapper), not badu, badu[0][0] if badu else f"{n_meas} measured json.dumps calls")
+    # what is compared with the limit must be the response, not the result text alone: the result travels as a JSON *string* inside the response and
+    # every quote / backslash in it is escaped once more (a result of 5.7 M characters full of small records is a 6.8 MB response)
+    bad_m = []
+    n_inline = 0
+    for t in wt:
+        if t.outcome != "return" or not hasattr(t.value, "items"):
+            continue
+        stv = t.value.items.get("Status")
+        inline_payload = (isinstance(stv, Const) and stv.value == "SUCCEEDED" and not (isinstance(t.value.items.get("Result"), Const) and t.value.items["Result"].value == "")) \
+            or (isinstance(stv, Const) and stv.value == "FAILED" and "Error" in t.value.items)
+        if not inline_payload:
+            continue
+        n_inline += 1
+        sized = [k for k, v in t.pc if k.startswith("len(") and "json.dumps#" in k and " > " in k and v is False]
+        if any(k.startswith("truthy(json.dumps#") and v is False for k, v in t.pc):
+            continue  # json.dumps never returns an empty text: infeasible path
+        if not sized:
+            if stv.value == "FAILED" and any(e.kind == "FAILCHECK" and e.data.get("outcome") != "ok" for e in t.events):
+                continue  # a checkpoint failure report (small, fixed fields)
+            bad_m.append((f"{stv.value} is answered inline without any comparison of the response size with the limit", t, "unchecked:" + stv.value))
+            continue
+        if not any("'Status'" in k for k in sized):
+            bad_m.append((f"{stv.value} is answered inline after measuring `{sized[-1][:70]}...`: the result text alone, not the response that carries it as an escaped string", t, "inner"))
+    ck.floor("inline_answers", n_inline, 3)
+    inner = [b for b in bad_m if b[2] == "inner"]
+    ck.ob("R5.size-measures-the-response", fn_construct(wrapper), not inner, inner[0][0] if inner else f"{n_inline} inline answers")
+    for status_ in ("SUCCEEDED", "FAILED"):
+        un_ = [b for b in bad_m if b[2] == "unchecked:" + status_]
+        classes_ = sorted({short_cls(e.data.get("outcome", "?")) for b in un_ for e in b[1].events if e.kind == "RESULT"})
+        ck.ob("R5.inline-answer-is-size-checked", fn_construct(wrapper), not un_,
+              (un_[0][0] + f" (handler outcomes: {', '.join(classes_[:8])}{' ...' if len(classes_) > 8 else ''})") if un_ else "", cell=status_)
     ck.ob("R5.response-limit", fn_construct(wrapper), lim == {str(6 * 1024 * 1024 - 50)}, f"response size limit evaluates to {sorted(lim)}")
     return ck
 
